@@ -396,6 +396,9 @@ class PureExecutor(Executor):
     def new_list_from_seq(self, seq, st):
         return VList(seq)
 
+    def py_set(self, e, st):
+        raise Unsupported('set() at line %s' % e.lineno)
+
     def map_symbolic(self, fexpr, xs, st, node):
         raise Unsupported('map over symbolic sequence at line %s' % node.lineno)
 
